@@ -11,6 +11,7 @@ import Dicom.Spec.CommandFields
 import Dicom.Spec.PduGrammar
 import Dicom.Model.Provider
 import Dicom.Model.Negotiation
+import Dicom.Model.Services
 /-! Line-protocol driver: one op per input line, one output line per op.
 Imports models and specifications only (never Generated or Props), core Lean only. -/
 open Dicom
@@ -269,6 +270,38 @@ def step (line : String) : String :=
           | some (i, t) => s!"{hx c}={i}:{hx t}"
           | none => s!"{hx c}=none")}"
     | _, _, _ => "bad-op"
+  | ["svc-move", nop, outs] =>
+    match nop.toNat? with
+    | some nop =>
+      let os := (if outs = "-" then [] else outs.toList).filterMap fun c =>
+        if c = 's' then some Svc.SubOutcome.success else if c = 'w' then some .warning else if c = 'f' then some .failure else none
+      let rq : Svc.Rq := { kind := 0x21, msgId := 0, sopClass := [] }
+      ";".intercalate ((Svc.moveScp rq 0 nop os).map fun r => match r.counters with
+        | some c => s!"{r.status}:{c.completed}:{c.remaining}:{c.failed}:{c.warning}"
+        | none => s!"{r.status}:-")
+    | none => "bad-op"
+  | "svc-find" :: sts =>
+    match sts.mapM String.toNat? with
+    | some l =>
+      let rq : Svc.Rq := { kind := 0x20, msgId := 0, sopClass := [] }
+      let ms := l.zipIdx.map fun (st, i) => ([UInt8.ofNat i], st)
+      ";".intercalate ((Svc.findScu (Svc.findScp rq 0 ms)).map fun y => s!"{match y.1 with | some b => bytesToHex b | none => "-"}:{y.2}")
+    | none => "bad-op"
+  | "svc-get" :: script =>
+    -- S.<ctx>.<msgid>.<status|err>  or  R.<status>
+    match script.mapM (fun (t : String) => match t.splitOn "." with
+        | ["S", c, m, "err"] => match c.toNat?, m.toNat? with
+          | some c, some m => some (Svc.GetIn.store { kind := 1, msgId := m, sopClass := [] } c .handlingError)
+          | _, _ => none
+        | ["S", c, m, st] => match c.toNat?, m.toNat?, st.toNat? with
+          | some c, some m, some st => some (Svc.GetIn.store { kind := 1, msgId := m, sopClass := [] } c (.status st))
+          | _, _, _ => none
+        | ["R", st] => st.toNat?.map Svc.GetIn.getRsp
+        | _ => none) with
+    | some l =>
+      let r := Svc.getScu l
+      s!"{";".intercalate (r.1.map fun x => s!"{x.ctx}.{x.msgIdRsp}.{x.status}")} | {";".intercalate (r.2.map fun x => toString x.msgId)}"
+    | none => "bad-op"
   | ["cf-of", name] =>
     match Spec.commandFieldTable.find? (fun e => e.2 = name) with
     | some e => toString e.1
